@@ -18,6 +18,12 @@ Progs == {ShowArgs \o <<P1("body")>> \o Returns[j] : j \in DOMAIN Returns}
          \cup {ShowArgs \o <<P1("before")>> \o Fails[j] \o <<P1("after")>> : j \in DOMAIN Fails}
          \cup {<<Func("SQ", <<"X">>, <<Return(Bin("*", V("X"), V("X")))>>), PutS(<<UCall("SQ", <<I(7)>>)>>), PutS(<<Str(" no newline")>>)>>,
                <<Begin(<<RaiseS("E1")>>, <<When("E1", <<P1("handled")>>)>>), Return(I(0))>>}
+\* thorough tier: every nesting of depth <= 1 of the control/exception/function shapes, as a script and on standard input
+Thorough == Env("VERIF_TIER", "quick") = "thorough"
+DeepProgs == IF Thorough
+             THEN {<<Func("FDIV", <<"A">>, <<Return(Bin("/", I(1), V("A")))>>), Let("T", Call("tab", <<I(2), I(7)>>))>> \o x.defs \o x.body \o <<P1("after")>>
+                   : x \in UNION {ShapesOf(d, Leaves) : d \in 0..1}}
+             ELSE {}
 ArgVecs == << <<>>, <<"a">>, <<"a", "b c", "q\"uote", "", "-x", "--out=zz", "12">>, <<"1", "2", "3", "4", "5", "6", "7", "8", "9", "10", "11", "12">> >>
 BadTexts == {"X = ;", "print (1;", "for I in 1 to loop print I; end loop;", "X = 1;\nY = 2;\nif X then\nprint 1;\n", "print \"open;", "X = 1 +* 2;", "function F( return 1;", "begin print 1; end"}
 
@@ -32,6 +38,8 @@ ExprTrees == {Bin(p, Bin(c, a1, a2), a3) : p \in {"+", "-", "*", "/", "%"}, c \i
 
 VARIABLE p
 Init == p \in {[k |-> "prog", m |-> m, a |-> a, mode |-> mode] : m \in Progs, a \in DOMAIN ArgVecs, mode \in {"file", "stdin", "out"}}
+              \cup {[k |-> "prog", m |-> m, a |-> 1, mode |-> mode] : m \in DeepProgs, mode \in {"file", "stdin", "out"}}
+              \cup {[k |-> "inter", m |-> m, a |-> 1] : m \in DeepProgs}
               \cup {[k |-> "bad", t |-> t, mode |-> mode] : t \in BadTexts, mode \in {"file", "stdin", "out"}}
               \cup {[k |-> "inter", m |-> m, a |-> a] : m \in Inter, a \in {1, 3}}
               \cup {[k |-> "expr", e |-> e] : e \in ExprTrees}
